@@ -7,6 +7,7 @@ import (
 	"encoding/hex"
 	"encoding/json"
 	"fmt"
+	"regexp"
 	"strings"
 
 	saodidparser "github.com/SaoNetwork/sao-did/parser"
@@ -292,8 +293,28 @@ func Ob_C17_Binding_InvPay() {
 
 func fillUpdate() *didtypes.MsgUpdate {
 	var msg didtypes.MsgUpdate
+	sym.SetBound(".Keys", 1)
 	sym.Fill("msg", &msg)
+	for _, k := range msg.Keys {
+		sym.Assume(k != nil)
+	}
+	// the new document id is the hash of the new keys (the handler rejects anything else; building it the way
+	// clients do makes counterexamples replay against the real hash)
+	msg.NewDocId = refDocId(msg.Keys, msg.Timestamp)
+	msg.Did = plainDidOf("did", 1) // key rotation concerns sid documents
 	return &msg
+}
+
+// plainDidOf: did:sid:<id> / did:key:<id> / did:web:<id> with a plain id (no path, query, fragment or
+// parameters) - the DIDs this chain creates; other forms are outside the claim of the rotation and
+// payment-address obligations.
+func plainDidOf(name string, methods int) string {
+	id := sym.String(name + ".id")
+	ok, _ := regexp.MatchString("^[a-zA-Z0-9._-]+$", id)
+	sym.Assume(ok)
+	m := sym.Int(name + ".method")
+	sym.Assume(m >= 0 && m < methods)
+	return []string{"did:sid:", "did:key:", "did:web:"}[sym.ConcreteInt(m, 0, 2)] + id
 }
 
 func runUpdate(w *World, msg *didtypes.MsgUpdate) bool {
@@ -409,6 +430,7 @@ func Ob_C17_UpdatePaymentAddress() {
 	w := NewWorld()
 	var msg didtypes.MsgUpdatePaymentAddress
 	sym.Fill("msg", &msg)
+	msg.Did = plainDidOf("did", 3)
 	d, a, k := sym.String("probeDid"), sym.String("probeAddr"), sym.String("probeKeyDid")
 	sym.Assume(invPaySid(w, d) && invKid(w, a) && invPayKey(w, k))
 	snap := w.Snapshot()
@@ -502,4 +524,95 @@ func Ob_C01C17_CalculateDocId_TwoRuns() {
 	id2, e2 := didkeeper.CalculateDocId(keys, ts)
 	sym.Cover("C01.docid-two-runs")
 	sym.Assert("C01.docid-deterministic", id1 == id2 && (e1 == nil) == (e2 == nil))
+}
+
+// honestBinding: a binding request as a well-behaved client builds it - the account really signed the proof
+// message and, for a new DID, the document id is the hash of the keys. (Success needs exactly this, by
+// Ob_C17_Binding; building it makes every counterexample on a success path replay against the real code.)
+func honestBinding(w *World, name string) (*didtypes.MsgBinding, string) {
+	msg := fillBinding(name)
+	for _, k := range msg.Keys {
+		sym.Assume(k != nil)
+	}
+	addr := sym.String(name + ".account")
+	_, e := sdk.AccAddressFromBech32(addr)
+	sym.Assume(e == nil)
+	msg.AccountId = cosmosPrefix + addr
+	msg.Proof.Signature = validProofFor(addr, msg.Proof.Message)
+	if sym.Bool(name + ".newDid") {
+		msg.RootDocId = refDocId(msg.Keys, msg.Proof.Timestamp)
+		msg.Proof.Did = "did:sid:" + msg.RootDocId
+	}
+	return msg, addr
+}
+
+// C17 / T-binding on well-formed requests (replayable): what a successful binding leaves in the tables.
+func Ob_C17_Binding_Honest() {
+	w := NewWorld()
+	didBounds(1, 0, 0)
+	sym.SetBound(".Keys", 1)
+	msg, addr := honestBinding(w, "msg")
+	snap := w.Snapshot()
+	if !runBinding(w, msg) {
+		return
+	}
+	sym.Cover("C17.honest-binding-succeeds")
+	did, accId := msg.Proof.Did, msg.AccountId
+	var wasBound, sidExisted, creatorBound, hadPay bool
+	var cd didtypes.Did
+	w.At(snap, func() {
+		_, wasBound = w.Did.GetDid(w.Ctx, accId)
+		_, sidExisted = w.Did.GetSidDocumentVersion(w.Ctx, msg.RootDocId)
+		cd, creatorBound = w.Did.GetDid(w.Ctx, cosmosPrefix+msg.Creator)
+		_, hadPay = w.Did.GetPaymentAddress(w.Ctx, did)
+	})
+	sym.Assert("C17.binding-account-was-unbound", !wasBound)
+	sym.Assert("C17.binding-proof-fresh", msg.Proof.Timestamp+900 >= uint64(w.Ctx.BlockTime().Unix()))
+	sym.Assert("C17.binding-existing-did-needs-bound-creator", !sidExisted || (creatorBound && cd.Did == did))
+	d, f := w.Did.GetDid(w.Ctx, accId)
+	sym.Assert("C17.binding-did-table", f && d.Did == did)
+	al, f2 := w.Did.GetAccountList(w.Ctx, did)
+	sym.Assert("C17.binding-account-listed", f2 && inList(msg.AccountAuth.AccountDid, al.AccountDids))
+	aid, f3 := w.Did.GetAccountId(w.Ctx, msg.AccountAuth.AccountDid)
+	sym.Assert("C17.binding-account-id-table", f3 && aid.AccountId == accId)
+	if !sidExisted {
+		sym.Cover("C17.honest-binding-new-did")
+		pa, f4 := w.Did.GetPaymentAddress(w.Ctx, did)
+		sym.Assert("C17.binding-first-account-pays", hadPay || (f4 && pa.Address == addr))
+	}
+	pa, fp := w.Did.GetPaymentAddress(w.Ctx, did)
+	if fp {
+		b, fb := w.Did.GetDid(w.Ctx, cosmosPrefix+pa.Address)
+		sym.Assert("C17.payment-account-is-bound", hadPay || (fb && b.Did == did))
+	}
+}
+
+// C17 / forged proofs (replayable): a proof signed by another key, or signed over another message, is rejected.
+func Ob_C17_Binding_Forged() {
+	w := NewWorld()
+	didBounds(0, 0, 0)
+	sym.SetBound(".Keys", 1)
+	msg := fillBinding("msg")
+	for _, k := range msg.Keys {
+		sym.Assume(k != nil)
+	}
+	addr, other := sym.String("account"), sym.String("otherAccount")
+	_, e1 := sdk.AccAddressFromBech32(addr)
+	_, e2 := sdk.AccAddressFromBech32(other)
+	sym.Assume(e1 == nil && e2 == nil && addr != other)
+	msg.AccountId = cosmosPrefix + addr
+	kind := sym.Int("forgery")
+	sym.Assume(kind == 0 || kind == 1)
+	if kind == 0 {
+		msg.Proof.Signature = validProofFor(other, msg.Proof.Message) // somebody else's signature
+	} else {
+		signed := sym.String("signedMessage")
+		sym.Assume(signed != msg.Proof.Message)
+		msg.Proof.Signature = validProofFor(addr, signed) // the account signed something else
+	}
+	msg.RootDocId = refDocId(msg.Keys, msg.Proof.Timestamp)
+	msg.Proof.Did = "did:sid:" + msg.RootDocId
+	ok := runBinding(w, msg)
+	sym.Cover("C17.forged-proof-tried")
+	sym.Assert("C17.forged-proof-rejected", !ok)
 }
